@@ -251,7 +251,7 @@ var _ = late(func() {
 // sort.Slice is a copy/paste slip that loses stability for inputs longer than the insertion-sort threshold.
 var _ = late(func() {
 	p := properties["C19"]
-	p.Rules = append(p.Rules, &Rule{ID: "C19.namesake-delegation", Floor: 4, Clause: "every exported function of xsort whose name is also the name of a function of the standard package sort (Slice, SliceStable, SliceIsSorted, Search) calls that function and no other function of package sort (or the slices equivalent: SortFunc / SortStableFunc / IsSortedFunc / BinarySearchFunc)",
+	p.Rules = append(p.Rules, &Rule{ID: "C19.namesake-delegation", Floor: 4, Clause: "an exported function of xsort whose name is also the name of a function of the standard package sort (Slice, SliceStable, SliceIsSorted, Search) delegates, if it delegates to package sort / slices at all, to that function (or its slices equivalent: SortFunc / SortStableFunc / IsSortedFunc / BinarySearchFunc) and to no sibling of it",
 		Run: func(c *Ctx, r *R) {
 			slicesName := map[string]string{"Slice": "SortFunc", "SliceStable": "SortStableFunc", "SliceIsSorted": "IsSortedFunc", "Search": "BinarySearchFunc"}
 			fns := c.funcsOfPkg("xsort")
@@ -283,7 +283,13 @@ var _ = late(func() {
 						called = append(called, cal.Pkg.Pkg.Path()+"."+cal.Name())
 					}
 				}
-				good := len(called) > 0
+				if len(called) == 0 {
+					// implemented by hand (a binary search written out): nothing is delegated, so there is no wrong delegate; what
+					// the hand-written code computes is value-level and not decided here
+					r.discharged("xsort."+fn.Name()+"|delegates-to-namesake", fn.Pos(), "calls nothing from sort / slices (own implementation; its result is not decided by this rule)")
+					continue
+				}
+				good := true
 				for _, cn := range called {
 					if cn != "sort."+fn.Name() && cn != "slices."+want {
 						good = false
